@@ -30,6 +30,10 @@ def _event(kind, path, nbytes=None):
     """called BEFORE the operation takes effect; returns number of bytes to write before dying (torn) or None"""
     if not _S["active"] or not _relevant(path):
         return None
+    cb = _S.get("on_event")
+    if cb is not None:          # scheduling mode (C12): the operation is a yield point, nobody dies
+        cb(kind, os.path.relpath(os.fsdecode(path), _S["root"]), nbytes)
+        return None
     _S["n"] += 1
     if _S["trace"] is not None:
         _S["trace"].append((kind, os.path.relpath(os.fsdecode(path), _S["root"]), nbytes))
